@@ -583,14 +583,16 @@ def rule_ef(ck, R, eng, ps):
     # table initialised for the first time (static zeroes), stale after a re-initialisation with fewer registers.
     if link and bad is None:
         node = link[0].loops[-1][0]
-        idxh = [h for k, h, pre in loop_counter(ps, link[0])]
+        idxk = [k for k, h, pre in loop_counter(ps, link[0])]
         for q in ps:
-            if q.end == 'loopback' or not idxh:
+            if q.end == 'loopback' or not idxk:
                 continue
-            if not any(n_ is node for n_, _ in q.loops):
+            lm = [m_ for n_, m_ in q.loops if n_ is node]
+            if not lm or idxk[0] not in lm[0]:
                 continue
-            if not eng.entails(eng.path_facts([sym.substitute(c_, origin) for c_ in q.cond_terms()]), L(('f', T, 'areas')) - L(idxh[0])):
-                ex = [fmt(c) for c in q.cond_terms() if sym.contains(c, idxh[0])]
+            hq = lm[0][idxk[0]][0]           # this path's own atom for the area index (paths that split before the loop havoc it separately)
+            if not eng.entails(eng.path_facts([sym.substitute(c_, origin) for c_ in q.cond_terms()]), L(('f', T, 'areas')) - L(hq)):
+                ex = [fmt(c) for c in q.cond_terms() if sym.contains(c, hq)]
                 bad = ('the link loop can be left before the area index has reached t->areas (exit under {%s}): the areas behind get no record in this initialisation - '
                        'after a re-initialisation with fewer registers they keep first / last / count of the previous one' % '; '.join(ex[-3:]))
                 break
